@@ -82,6 +82,8 @@ def _make(rng, nb, sizes, n_par, term_orders, values, E, hermitian, log, state):
             if not any(all(a <= b for a, b in zip(n, c)) for c in cones):
                 raise OutOfCone(f"H[{n}] evaluated while computing order(s) {cones}")
         if not any(n):
+            if state.get("form") == "scalar_blocklist":
+                return [[np.diag(E[i]) if i == j else np.zeros((sizes[i], sizes[j])) for j in range(nb)] for i in range(nb)]
             return np.diag(np.concatenate(E))
         if n not in term_orders:
             return zero
@@ -89,6 +91,9 @@ def _make(rng, nb, sizes, n_par, term_orders, values, E, hermitian, log, state):
         for i in range(nb):
             for j in range(nb):
                 M[off[i]:off[i + 1], off[j]:off[j + 1]] = values(i, j, n)
+        if state.get("form") == "scalar_blocklist":
+            # packed term: a list of lists of blocks (unpacked by the library, no subspace argument)
+            return [[M[off[i]:off[i + 1], off[j]:off[j + 1]].copy() for j in range(nb)] for i in range(nb)]
         if state.get("recursive") and sum(n) >= 2:
             q = next(k for k, x in enumerate(n) if x)
             w = state["H"][n[:q] + (n[q] - 1,) + n[q + 1:]]
@@ -255,7 +260,7 @@ def run_case(spec):
     base_values = make_values(0)
     counters = Counter()
     log = []
-    form = str(rng.choice(["blocks", "blocks", "scalar_indices", "scalar_vectors", "scalar_single", "scalar_implicit"]))
+    form = str(rng.choice(["blocks", "blocks", "scalar_indices", "scalar_vectors", "scalar_single", "scalar_implicit", "scalar_blocklist"]))
     state = {"phase": "define", "cone": None, "form": form}
     counters[f"form_{form}"] += 1
     Ntot = sum(sizes)
@@ -275,7 +280,7 @@ def run_case(spec):
         # no subspace argument: one block, fully diagonalised by default; the block structure is only in the values
         kwargs.pop("fully_diagonalize", None)
         sel = "single"
-    if form != "scalar_implicit" and rng.random() < 0.35:
+    if form not in ("scalar_implicit", "scalar_blocklist") and rng.random() < 0.35:
         # the series is defined recursively (its callback reads lower terms of the series itself) and the names of the
         # perturbation parameters are passed with `symbols`
         import sympy as _sp
